@@ -38,13 +38,17 @@ def _src():
 OUTNAMES = ("out.fits", "out.fits", "out.fit", "OUT.FITS", "results", "run.fits.v2", "stages.dat")
 
 
-def _reference(key, cfg, rng_seed, clock, outname="out.fits"):
+PLOTS = ("taus_pexit", "taus_density_beta", "geom_beta_tr_hist", "spectra_histogram", "eas_optical_histogram")
+
+
+def _reference(key, cfg, rng_seed, clock, outname="out.fits", compute_kw=None):
     if key in _REF:
         return _REF[key]
     if len(_REF) > 6:
         _REF.clear()
-    ref = crashsim.reference_run(cfg, rng_seed, clock, _src(), outname)
+    ref = crashsim.reference_run(cfg, rng_seed, clock, _src(), outname, compute_kw)
     ref["outname"] = outname
+    ref["compute_kw"] = compute_kw
     ref["problems"] = _reference_oracle(ref)
     _REF[key] = ref
     return ref
@@ -103,8 +107,13 @@ def scn_case(ctx):
     clock = float(ch.draw(4 * 365 * 86400, "clock"))
     outname = OUTNAMES[ch.draw(len(OUTNAMES), "output_name")]  # the name is the user's: not every name ends in .fits
     desc["output_name"] = outname
+    po = ch.draw(8, "presentation")  # 6: verbose logging, 7: a plot hook (non-interactive backend)
+    compute_kw = {"verbose": True} if po == 6 else {"to_plot": [PLOTS[ch.draw(len(PLOTS), "plot")]]} if po == 7 else None
+    if compute_kw:
+        desc["compute_options"] = compute_kw
+        ctx.probes["case_with_" + ("verbose_logging" if po == 6 else "plot_hook")] += 1
     key = tuple(ch.values())
-    ref = _reference(key, cfg, desc["rng_seed"], clock, outname)
+    ref = _reference(key, cfg, desc["rng_seed"], clock, outname, compute_kw)
     K = ref["K"]
     ctx.describe.update(config=desc, clock=clock, boundaries=K, rows=ref["rows"], ref_steps=ref["steps"])
     ctx.log(f"config {desc} clock={clock:.0f}")
@@ -143,7 +152,7 @@ def scn_case(ctx):
         return
     if kind.startswith("staging-off"):
         named = kind.endswith("-named")
-        fr = crashsim.fault_run(cfg, desc["rng_seed"], clock, src, None, write_stages=False, give_output=named, outname=outname)
+        fr = crashsim.fault_run(cfg, desc["rng_seed"], clock, src, None, write_stages=False, give_output=named, outname=outname, compute_kw=compute_kw)
         rep = fr["report"]
         ctx.steps += rep.get("steps", 0)
         ctx.log(f"case {kind} status={rep['status'][:40]} listing={fr['listing']} audit={len(rep.get('audit', []))}")
@@ -198,7 +207,7 @@ def scn_case(ctx):
     else:
         fault = {"kind": fkind, "step": None, "fits_k": fits_k, "fits_line": fits_line}
     ctx.describe.update(where=where, step=step, target=target)
-    fr = crashsim.fault_run(cfg, desc["rng_seed"], clock, src, fault, trace_fits=trace_fits, outname=outname)
+    fr = crashsim.fault_run(cfg, desc["rng_seed"], clock, src, fault, trace_fits=trace_fits, outname=outname, compute_kw=compute_kw)
     rep = fr["report"]
     fired = rep.get("fired") if rep["status"] != "died" else rep
     ctx.steps += (fired or rep).get("step", rep.get("steps", 0)) if isinstance(fired or rep, dict) else 0
@@ -277,11 +286,11 @@ def _ioerr_case(ctx, cfg, desc, clock, ref, torn=False):
         mode = ("raise", "die")[ch.draw(4, "torn_mode") == 3]
         tear = ch.draw(3, "tear_point")  # 0: half; 1: before the last non-blank 80-byte record; 2: at a 512-byte sector boundary
         fr = crashsim.fault_run(cfg, desc["rng_seed"], clock, _src(),
-                                {"kind": "torn", "write_call": j, "mode": mode, "tear": tear, "sector": ch.draw(64, "tear_sector"), "step": None}, outname=ref["outname"])
+                                {"kind": "torn", "write_call": j, "mode": mode, "tear": tear, "sector": ch.draw(64, "tear_sector"), "step": None}, outname=ref["outname"], compute_kw=ref["compute_kw"])
     else:
         j = 1 + ch.draw(max(1, K), "io_write_no")
         mode = "raise"
-        fr = crashsim.fault_run(cfg, desc["rng_seed"], clock, _src(), {"kind": "ioerr", "write_no": j, "step": None}, outname=ref["outname"])
+        fr = crashsim.fault_run(cfg, desc["rng_seed"], clock, _src(), {"kind": "ioerr", "write_no": j, "step": None}, outname=ref["outname"], compute_kw=ref["compute_kw"])
     rep = fr["report"]
     io = rep.get("io")
     if torn and rep["status"] == "died":
@@ -348,9 +357,9 @@ def _retry_case(ctx, cfg, desc, clock, ref):
             os.chdir(d)
             try:
                 st1, _, tr1 = crashsim._compute_call(cfg, seed, clock, out, True,
-                                                     lambda box: crashsim.StageTracer(src, box, out, fault={"kind": "raise", "step": step}))
+                                                     lambda box: crashsim.StageTracer(src, box, out, fault={"kind": "raise", "step": step}), ref["compute_kw"])
                 st2, t2, tr2 = crashsim._compute_call(cfg, seed, clock, out, True,
-                                                      lambda box: crashsim.StageTracer(src, box, out, snapshot=True, side_dir=os.path.join(d, "side")))
+                                                      lambda box: crashsim.StageTracer(src, box, out, snapshot=True, side_dir=os.path.join(d, "side")), ref["compute_kw"])
             finally:
                 os.chdir(cwd)
             bad = None
@@ -434,6 +443,8 @@ def _enumerate_cases(seed, c, K_hint=None):
     draw_config(ch0, max_events=40)
     ch0.draw(4 * 365 * 86400, "clock")
     ch0.draw(len(OUTNAMES), "output_name")
+    if ch0.draw(8, "presentation") == 7:
+        ch0.draw(len(PLOTS), "plot")
     return ch0.values()
 
 
